@@ -1,6 +1,7 @@
 package store
 
 import (
+	"bytes"
 	"context"
 	"encoding/binary"
 	"errors"
@@ -83,6 +84,16 @@ func (s *DefaultStore) SaveBlockData(ctx context.Context, header *types.SignedHe
 	batch, err := s.db.Batch(ctx)
 	if err != nil {
 		return fmt.Errorf("failed to create a new batch: %w", err)
+	}
+
+	// If a different block is already stored at this height, its hash must stop resolving to this height:
+	// otherwise GetBlockByHash(old hash) would return the block that replaced it.
+	if old, err := s.GetHeader(ctx, height); err == nil {
+		if oldHash := old.Hash(); !bytes.Equal(oldHash, hash) {
+			if err := batch.Delete(ctx, ds.NewKey(getIndexKey(oldHash))); err != nil {
+				return fmt.Errorf("failed to remove stale index key in batch: %w", err)
+			}
+		}
 	}
 
 	if err := batch.Put(ctx, ds.NewKey(getHeaderKey(height)), headerBlob); err != nil {
